@@ -707,6 +707,9 @@ func writeEvidence(verifDir, id, tier string, seed uint64, meta propInfo, agg re
 			fmt.Fprintf(os.Stderr, "warning: reach probe %q stayed at zero\n", k)
 		}
 	}
+	if meta.Assumptions == nil {
+		meta.Assumptions = []string{}
+	}
 	ev := map[string]any{
 		"property_id": id,
 		"tier":        tier,
